@@ -215,8 +215,12 @@ func clientCase(sc clScenario) (term, text string, tags []string, err error) {
 			opT, opX = "OReplace", "Replace"
 		}
 		if paniced {
+			// a crash is not a rejection: the observation keeps it as an error (so the
+			// rest of the case stays comparable) and the case is reported as an
+			// implementation failure by the caller
 			opErr = fmt.Errorf("panic")
 			opX += "(PANIC)"
+			tags = append(tags, "client:PANIC")
 		}
 		reqs := cs.newRequests()
 		pk, keys := cs.storedKeys()
@@ -395,6 +399,9 @@ func runClient(o *out, r *rand.Rand, tier string, pool []object.ObjMetadata) err
 		}
 		for _, t := range tags {
 			o.sum.Count(t)
+			if t == "client:PANIC" && len(o.sum.ImplFailures) < 5 {
+				o.sum.ImplFailures = append(o.sum.ImplFailures, "panic in an operation of the inventory client: "+text)
+			}
 		}
 		return sh.add(term, text, true, kind)
 	}
